@@ -221,15 +221,76 @@ def sci_text(x, w, p):
     return None
 
 
-def header_double_rounding(desc, text1, text2, got):
-    """the two files differ in the sumtim field of the long header only, and each holds 12.6e of the value its writer
-    had in memory: the original sumtim, and sumtim as the 15.9e timing record returned it"""
+def header_double_rounding(desc, h1, h2, got):
+    """the two long headers differ in the sumtim field only, and each holds 12.6e of the value its writer had in memory:
+    the original sumtim, and sumtim as the 15.9e timing record returned it"""
     t = desc['timing']
-    if t is None or desc['reset'] or t.get('sumtim') is None or text1 is None or text2 is None or not got or not got.get('timing'): return False
-    l1, l2 = text1.split('\n'), text2.split('\n')
-    if len(l1) != len(l2) or l1[1:] != l2[1:] or l1[0][:-12] != l2[0][:-12] or len(l1[0]) != 67 or len(l2[0]) != 67: return False
+    if t is None or desc['reset'] or t.get('sumtim') is None or not got or not got.get('timing'): return False
+    if h1[:-12] != h2[:-12] or len(h1) != 67 or len(h2) != 67: return False
     s, s2 = t['sumtim'], got['timing'].get('sumtim')
-    return isinstance(s2, float) and close_to(s, s2, 15, 9) and l1[0][-12:] == sci_text(s, 12, 6) and l2[0][-12:] == sci_text(s2, 12, 6)
+    return isinstance(s2, float) and close_to(s, s2, 15, 9) and h1[-12:] == sci_text(s, 12, 6) and h2[-12:] == sci_text(s2, 12, 6)
+
+
+def used_decimals(x, w, p):
+    """the number of decimals with which x is written into w columns (at most p)"""
+    for q in range(p, -1, -1):
+        if len('%*.*e' % (w, q, x)) <= w: return q
+    return None
+
+
+def file_layout(desc, got):
+    """per line of the written file: list of (column, width, decimals, value written, value re-read) for its real fields
+    (None for lines without reals: the header, blank lines, '+++')"""
+    tr = desc['sim'] == 'TOUGHREACT'
+    lines = [None]
+    for b, g in zip(desc['blocks'], got['blocks']):
+        h = [(15, 15, 9, b['porosity'], g['porosity'])]
+        if tr and b['perm'] is not None and g['perm'] is not None:
+            h += [(30 + 15 * k, 15, 9, b['perm'][k], g['perm'][k]) for k in range(3)]
+        lines.append(h)
+        for k in range(0, len(b['vars']), 4):
+            lines.append([(20 * j, 20, 13, x, y) for j, (x, y) in enumerate(zip(b['vars'][k:k + 4], g['vars'][k:k + 4]))])
+    t, gt = desc['timing'], got['timing']
+    if t is not None and not desc['reset'] and gt is not None:
+        lines.append(None)
+        lines.append([(15, 15, 9, t['tstart'], gt.get('tstart')), (30, 15, 9, t['sumtim'], gt.get('sumtim'))])
+    return lines
+
+
+def rewrite_differences(desc, got, text1, text2):
+    """the second file against the first, difference by difference; each is tagged with its exact class:
+    'rewrite-differs:header-sumtim'     line 0 differs in its sumtim field only, by double rounding (12.6e of a 15.9e value)
+    'rewrite-differs:lowered-precision' a real field whose value needed fewer decimals than the format to fit (its text
+                                        was too wide), rounded up into a shorter exponent at that precision, and is
+                                        therefore re-written, from the re-read value, with more decimals
+    'rewrite-differs'                   anything else"""
+    l1, l2 = text1.split('\n'), text2.split('\n')
+    if len(l1) != len(l2):
+        return [('rewrite-differs', '%d lines' % len(l2), '%d lines' % len(l1))]
+    lay = file_layout(desc, got)
+    out, seen = [], set()
+
+    def add(tag, i):
+        if tag not in seen:
+            seen.add(tag); out.append((tag, 'line %d: %r' % (i, l2[i]), 'line %d: %r' % (i, l1[i])))
+    for i, (a, b) in enumerate(zip(l1, l2)):
+        if a == b: continue
+        if i == 0:
+            add('rewrite-differs:header-sumtim' if header_double_rounding(desc, l1[0], l2[0], got) else 'rewrite-differs', i); continue
+        fields = lay[i] if i < len(lay) else None
+        if not fields or len(a) != len(b): add('rewrite-differs', i); continue
+        rest_a, rest_b, ok = a, b, True
+        for col, w, p, x, y in fields:
+            fa, fb = a[col:col + w], b[col:col + w]
+            rest_a = rest_a[:col] + ' ' * w + rest_a[col + w:]; rest_b = rest_b[:col] + ' ' * w + rest_b[col + w:]
+            if fa == fb: continue
+            if x is None or not isinstance(y, float): ok = False; continue
+            qx, qy = used_decimals(x, w, p), used_decimals(y, w, p)
+            if not (qx is not None and qy is not None and qx < p and qx < qy and fa == sci_text(x, w, p) and fb == sci_text(y, w, p)
+                    and len(fa.strip()) < w and float(fa) == y):
+                ok = False
+        add('rewrite-differs:lowered-precision' if ok and rest_a == rest_b else 'rewrite-differs', i)
+    return out
 
 
 def classify(desc, what, text1=None, text2=None, got=None):
@@ -237,8 +298,8 @@ def classify(desc, what, text1=None, text2=None, got=None):
     if toughreact_without_permeability(desc) and got is not None and got['sim'] == 'TOUGH2' and what in ('flavour', 'timing'):
         # the flavour is lost; when a timing record was kept it is then parsed with the other flavour's layout
         return 't2incon.read:toughreact-without-permeability'
-    if what == 'rewrite-differs' and header_double_rounding(desc, text1, text2, got):
-        return 't2incon.write:header-sumtim-double-rounding'
+    if what == 'rewrite-differs:header-sumtim': return 't2incon.write:header-sumtim-double-rounding'
+    if what == 'rewrite-differs:lowered-precision': return 't2incon.write:lowered-precision-rounds-into-shorter-exponent'
     return 't2incon.roundtrip:%s' % what
 
 
@@ -282,9 +343,7 @@ def evaluate_all(desc, out):
         return bad         # the second file of a different object is not compared
     if 'rewrite_raised' in out: return bad + [('rewrite-raises', out['rewrite_raised'], 'second file written')]
     if out['text2'] != out['text1']:
-        l1, l2 = out['text1'].split('\n'), out['text2'].split('\n')
-        k = next((i for i, (a, b) in enumerate(zip(l1, l2)) if a != b), min(len(l1), len(l2)))
-        bad.append(('rewrite-differs', 'line %d: %r' % (k, l2[k] if k < len(l2) else '<missing>'), 'line %d: %r' % (k, l1[k] if k < len(l1) else '<missing>')))
+        bad += rewrite_differences(desc, out['got'], out['text1'], out['text2'])
     return bad
 
 
@@ -340,7 +399,8 @@ def gen_real(rng, cls=None, nonneg=False):
     elif cls == 'neg3': x = -rng.uniform(1, 10) * 10.0 ** rng.choice([100, -100, 101, -101, 110, -110, rng.choice([200, -200, rng.randint(100, 307), rng.randint(-307, -100)])])
     elif cls == 'zero': x = rng.choice([0.0, -0.0])
     elif cls == 'tie': x = float(rng.choice([123456789012345, 100000000000005, 999999999999995, 12345678905, 10000000005, 5, 15, 25])) * 10.0 ** rng.choice([0, 0, 1, 3])
-    elif cls == 'carry': x = rng.choice([9.99999999999999e99, 9.9999999999999999e9, 9.99999999996e-100, 9.9999999995e5, 9.99999999999995e-101, 9.9999999999999e99])
+    elif cls == 'carry': x = rng.choice([9.99999999999999e99, 9.9999999999999999e9, 9.99999999996e-100, 9.9999999995e5, 9.99999999999995e-101, 9.9999999999999e99,
+                                         -9.9999999999996e-100, -9.99999999999996e-100, -9.9999999999999e-100, -9.99999999996e-100])
     else: x = rng.choice([1, -1]) * rng.random() * 10.0 ** rng.randint(-20, 20)
     if nonneg: x = abs(x)
     return x
@@ -356,6 +416,7 @@ def gen_desc(rng, thorough=False, oracle_only=True):
     blocks = []
     style = rng.choice(['plain', 'mixed', 'mixed', 'extreme'])
     perm_mode = rng.choice(['all', 'all', 'some', 'none']) if sim == 'TOUGHREACT' else 'none'
+    zero_mode = rng.choice(['none', 'none', 'some', 'some', 'all'])
     for k, nm in enumerate(names):
         vs = []
         for j in range(nvars):
@@ -366,6 +427,11 @@ def gen_desc(rng, thorough=False, oracle_only=True):
         perm = None
         if perm_mode == 'all' or (perm_mode == 'some' and rng.random() < 0.5):
             perm = [rng.choice([1e-13, 6.51e-14, 2.5e-15, rng.random() * 1e-12, 1e-101 * (1 + rng.random())]) for _ in range(3)]
+            # impermeable blocks: a triple is a triple whatever its values -- all zero, partly zero, mixed across blocks
+            z = rng.random()
+            if zero_mode == 'all' or (zero_mode == 'some' and z < 0.4): perm = [0.0, 0.0, 0.0]
+            elif zero_mode == 'some' and z < 0.7: perm[rng.randrange(3)] = 0.0
+            elif zero_mode == 'some' and z < 0.8: perm = [0.0, 0.0, perm[2]]
         sq = rng.random()
         if sq < 0.55: nseq, nadd = None, None
         elif sq < 0.9: nseq, nadd = rng.choice([0, 1, 3, 99, 99999, rng.randint(0, 99999)]), rng.choice([0, 1, 2, 10, 99999, -9999, rng.randint(-9999, 99999)])
@@ -394,12 +460,25 @@ def unfixed(nm):
     return nm
 
 
+def fixed_cases():
+    """deterministic sets run on every check besides the random ones: TOUGHREACT sets whose permeability triples hold zeros"""
+    nz, pz, zz = [1e-13, 2e-13, 3e-14], [1e-13, 0.0, 3e-14], [0.0, 0.0, 0.0]
+    tm = {'kcyc': 123456, 'iter': 654321, 'nm': 7, 'tstart': 0.0, 'sumtim': 3155760000.0}
+    out = []
+    for perms in ([zz], [zz, zz, zz], [nz, zz, nz], [zz, nz], [pz, nz], [zz, None, nz], [None, zz], [[0.0, 0.0, 1e-15], zz]):
+        for timing, reset in ((None, True), (tm, False), (tm, True)):
+            blocks = [{'name': 'AAA%2d' % (k + 1), 'nseq': None, 'nadd': None, 'porosity': 0.1 if k % 2 == 0 else None,
+                       'perm': None if p is None else list(p), 'vars': [1.013e5, 20.0 + k]} for k, p in enumerate(perms)]
+            out.append({'sim': 'TOUGHREACT', 'reset': reset, 'nv': 2, 'check': True, 'timing': None if timing is None else dict(timing), 'blocks': blocks})
+    return out
+
+
 def nontrivial(desc):
     return len(desc['blocks']) >= 1
 
 
 def distribution(descs):
-    d = {'objects': len(descs), 'blocks_0': 0, 'blocks_1': 0, 'blocks_2plus': 0, 'toughreact': 0, 'with_permeability': 0,
+    d = {'objects': len(descs), 'zero_permeability_triple': 0, 'partly_zero_permeability_triple': 0, 'all_triples_zero': 0, 'blocks_0': 0, 'blocks_1': 0, 'blocks_2plus': 0, 'toughreact': 0, 'with_permeability': 0,
          'timing_kept': 0, 'timing_reset': 0, 'no_timing': 0, 'nseq_nadd': 0, 'porosity_absent': 0, 'neg_3digit_exponent': 0,
          'pos_3digit_exponent': 0, 'negative': 0, 'check_blocknames_off': 0, 'num_variables_none': 0}
     nvh = {}
@@ -408,6 +487,10 @@ def distribution(descs):
         d['blocks_0' if nb == 0 else 'blocks_1' if nb == 1 else 'blocks_2plus'] += 1
         d['toughreact'] += x['sim'] == 'TOUGHREACT'
         d['with_permeability'] += any(b['perm'] is not None for b in x['blocks'])
+        ps = [b['perm'] for b in x['blocks'] if b['perm'] is not None]
+        d['zero_permeability_triple'] += any(not any(p) for p in ps)
+        d['partly_zero_permeability_triple'] += any(any(p) and not all(p) for p in ps)
+        d['all_triples_zero'] += bool(ps) and all(not any(p) for p in ps)
         if x['timing'] is None: d['no_timing'] += 1
         elif x['reset']: d['timing_reset'] += 1
         else: d['timing_kept'] += 1
